@@ -176,7 +176,7 @@ def vector_subscript_ok(f, n):
         """is size() >= c known where `node` is evaluated"""
         if c <= 0:
             return True
-        pc = boolform.path_condition(f['body'], node, FM)
+        pc = boolform.path_condition(f['body'], node, FM, asserts=True)
         size_t = '(call %s::size on %s )' % (cls, bt)
         empty_t = '(call %s::empty on %s )' % (cls, bt)
         if c == 1 and (boolform.implies(pc, boolform.neg(boolform.A(empty_t))) is True or boolform.implies(pc, boolform.A(size_t)) is True):
